@@ -11,7 +11,7 @@ one() { # kind prop patch
   cp -r /repo/. $scratch/ && rm -rf $scratch/.git
   mkdir -p $scratch/.verif && cp known_findings.json $scratch/.verif/
   if ! (cd $scratch && patch -p1 -s < $patch >/dev/null 2>&1); then echo "SELFTEST-BROKEN $prop $(basename $patch): patch does not apply"; rm -rf $scratch; return 1; fi
-  local out; out=$(timeout 900 ./bin/govc check --prop $prop --repo $scratch --verif $scratch/.verif --no-evidence 2>&1); local rc=$?
+  local out; out=$(timeout 1800 ./bin/govc check --prop $prop --repo $scratch --verif $scratch/.verif --no-evidence 2>&1); local rc=$?
   rm -rf $scratch
   if [ $kind = mutant ]; then
     if [ $rc -eq 1 ]; then echo "ok   mutant   $prop $(basename $patch .patch): $(echo "$out" | grep '^VIOLATION' | head -1 | sed 's/.*obligation=//' | cut -c1-100)"
